@@ -628,6 +628,14 @@ func (s *Sim) exec(i int, o Op) {
 		sc := env.Conns[len(env.Conns)-1]
 		if o.A >= 0 {
 			sc = env.Conns[o.A%len(env.Conns)]
+		} else if o.A == -2 {
+			// the connection the most recent placed call went to
+			for j := len(s.calls) - 1; j >= 0; j-- {
+				if c := s.calls[j]; c.Res.Kind == ResPlaced && c.Res.Conn < len(env.Conns) {
+					sc = env.Conns[c.Res.Conn]
+					break
+				}
+			}
 		}
 		st, ok := s.resolveConnEvent(sc, o)
 		if !ok {
@@ -684,7 +692,7 @@ func (s *Sim) exec(i int, o Op) {
 		}
 		c := cands[o.A%len(cands)]
 		c.WasCancelled, c.CancelledAt = true, s.k.Elapsed()
-		c.cancel()
+		s.cancelCtx(c.cancel)
 		s.k.Bump()
 		env.Fired["ctx_cancel"]++
 		s.stepsAfter(o)
@@ -820,7 +828,7 @@ func (s *Sim) startCall(i int, o Op) {
 		s.k.AddStop(time.Now().Add(d))
 	case 2:
 		c.ctx, c.cancel = context.WithCancel(base)
-		c.cancel()
+		c.cancel() // no task has seen this context yet
 		c.WasCancelled, c.CancelledAt = true, s.k.Elapsed()
 		s.env.Fired["ctx_cancelled_before_pick"]++
 	default:
@@ -860,6 +868,31 @@ func (s *Sim) opKey(op int, n uint64) uint64 {
 		return kern.MixKey(id, n+s.keySeq<<8) // setup / heal tasks: unique per spawn
 	}
 	return kern.MixKey(id, n)
+}
+
+// lazyNote formats an event note only when the event log is on: fmt uses a
+// sync.Pool, whose race annotations would add happens-before edges between the
+// tasks that format (and hide races) in search runs.
+//
+//go:norace
+func (s *Sim) lazyNote(f func() string) string {
+	if s.k.LogOn {
+		return f()
+	}
+	return ""
+}
+
+// cancelCtx cancels a call context from a task of its own, as some goroutine
+// of the application would: the scheduler goroutine is deaf to synchronisation
+// events and must not touch the context's mutex-protected state itself.
+//
+//go:norace
+func (s *Sim) cancelCtx(cancel context.CancelFunc) {
+	if s.k.Aborting() {
+		cancel()
+		return
+	}
+	s.k.Spawn("cancel", 0, &TaskTag{Op: s.opIdx, Call: -1}, func() { cancel() })
 }
 
 // callBody is the life of one RPC: interceptor -> pick on the chosen picker ->
@@ -927,7 +960,7 @@ func (s *Sim) pick(ctx context.Context, c *Call) error {
 	picker := pubs[idx].Picker
 	s.env.pubMu.Unlock()
 	c.Invoked = true
-	c.InvokeSeq = s.env.add(Event{Kind: EvPickInvoke, Conn: -1, Call: c.ID, Pub: idx, Note: fmt.Sprintf("%s keys=%v pub=%d", c.MethodName, c.ReqKeys, idx)})
+	c.InvokeSeq = s.env.add(Event{Kind: EvPickInvoke, Conn: -1, Call: c.ID, Pub: idx, Note: s.lazyNote(func() string { return fmt.Sprintf("%s keys=%v pub=%d", c.MethodName, c.ReqKeys, idx) })})
 	var res balancer.PickResult
 	var err error
 	note := s.guard(func() {
@@ -954,7 +987,7 @@ func (s *Sim) pick(ctx context.Context, c *Call) error {
 		c.Res = PickRes{Kind: ResErr, Err: err.Error()}
 	}
 	c.Returned = true
-	s.env.add(Event{Kind: EvPickReturn, Conn: c.Res.Conn, Call: c.ID, Pub: idx, Note: c.Res.String()})
+	s.env.add(Event{Kind: EvPickReturn, Conn: c.Res.Conn, Call: c.ID, Pub: idx, Note: s.lazyNote(c.Res.String)})
 	return err
 }
 
@@ -997,7 +1030,10 @@ func (s *Sim) completeCall(i int, o Op) {
 	if len(fl) == 0 {
 		return
 	}
-	c := fl[o.A%len(fl)]
+	c := fl[len(fl)-1] // A < 0: the most recent call in flight
+	if o.A >= 0 {
+		c = fl[o.A%len(fl)]
+	}
 	s.finishCall(i, c, o.B, keyNames(o.Keys))
 }
 
@@ -1021,7 +1057,7 @@ func (s *Sim) finishCall(i int, c *Call, outcome int, replyKeys []string) {
 	case OutCancelled:
 		if !c.WasCancelled && c.cancel != nil {
 			c.WasCancelled, c.CancelledAt = true, now
-			c.cancel()
+			s.cancelCtx(c.cancel)
 		}
 	}
 	s.env.Fired["completion_"+outcomeNames[c.Outcome]]++
@@ -1100,7 +1136,7 @@ func (s *Sim) heal() {
 	for _, c := range s.calls {
 		if c.Invoked && !c.Returned && c.cancel != nil && !c.WasCancelled {
 			c.WasCancelled, c.CancelledAt = true, s.k.Elapsed()
-			c.cancel()
+			s.cancelCtx(c.cancel)
 		}
 	}
 	s.k.Bump()
@@ -1267,6 +1303,7 @@ func (s *Sim) probeCallNoModel(i int, method int) *Call {
 	return c
 }
 
+//go:norace
 func (s *Sim) probeCall(i int, method int, keys []string) *Call {
 	c := &Call{ID: len(s.calls), Op: i, Method: method, MethodName: methodNames[method], PubIdx: -1, ReqKeys: keys}
 	c.req = buildMsg(s.plan.Cfg.Locator%len(locators), keys)
@@ -1287,13 +1324,13 @@ func (s *Sim) finish() {
 	if s.callerCfg != nil && s.cfgSnap != nil && !proto.Equal(s.callerCfg.ApiConfig, s.cfgSnap) {
 		s.vio("C17", "caller-config-mutated", "", fmt.Sprintf("caller's config changed from %v to %v", s.cfgSnap, s.callerCfg.ApiConfig))
 	}
-	// teardown
+	// teardown: abort every task first, then release the contexts
+	k.Shutdown()
 	for _, c := range s.calls {
 		if c.cancel != nil {
 			c.cancel()
 		}
 	}
-	k.Shutdown()
 	res := s.res
 	res.Steps = int(k.Steps())
 	res.SimNanos = int64(k.Elapsed())
